@@ -109,7 +109,7 @@ def rxso3_Ws(x):
     B[condition2] = (theta_c2 - theta_c2.sin()) / (theta2[condition2] * theta_c2)
 
     # condition3
-    C[sigma_larger] = (scale[sigma_larger] - 1.0) / sigma[sigma_larger]
+    C[sigma_larger] = torch.expm1(sigma[sigma_larger]) / sigma[sigma_larger]
     sigma_c3, scale_c3, sigma2_c3 = sigma[condition3], scale[condition3], sigma2[condition3]
     A[condition3] = (1.0 + (sigma_c3 - 1.0) * scale_c3) / sigma2_c3
     B[condition3] = (0.5 * sigma2_c3 * scale_c3 + scale_c3 - 1.0 - sigma2_c3 * scale_c3) / (sigma2_c3 * sigma_c3)
@@ -126,7 +126,13 @@ def rxso3_Ws(x):
     B = B.unsqueeze(-1).unsqueeze(-1)
     C = C.unsqueeze(-1).unsqueeze(-1)
     I = torch.eye(3, device=x.device, dtype=x.dtype).expand(x.shape[:-1]+(3,3))
-    return A * K + B * (K@K) + C * I
+    Ws = A * K + B * (K@K) + C * I
+    # the closed forms cancel when rotation and scale are both small: use the series
+    small = (theta2 + sigma2 < 1e-4).unsqueeze(-1).unsqueeze(-1)
+    G, S = K + sigma.unsqueeze(-1).unsqueeze(-1) * I, I
+    for k in range(8, 0, -1):
+        S = I + G @ S / (k + 1)
+    return torch.where(small, S, Ws)
 
 
 def rxso3_Jl(x):
